@@ -476,12 +476,12 @@ func vpC34GenScn(t *rapid.T) *vpC34Scn {
 	s.pooled = rapid.Bool().Draw(t, "pooled")
 	isSW := s.kind == vpC34KindStreamReader || s.kind == vpC34KindStreamWriter
 
-	switch rapid.IntRange(0, 6).Draw(t, "declShape") {
-	case 0, 1, 2:
+	switch rapid.IntRange(0, 9).Draw(t, "declShape") {
+	case 0, 1, 2, 3:
 		s.declKind, s.declared = "chunked", -1
-	case 3, 4:
+	case 4, 5:
 		s.declKind, s.declared = "exact", s.dataLen
-	case 5:
+	case 6, 7:
 		s.declKind = "short" // the stream ends before the declared size
 		s.declared = s.dataLen + rapid.SampledFrom([]int{1, 2, 100, 5000}).Draw(t, "missing")
 	default:
@@ -541,7 +541,7 @@ func vpC34GenScn(t *rapid.T) *vpC34Scn {
 	s.noWrite = s.compress == "" && rapid.IntRange(0, 9).Draw(t, "noWrite") == 0
 	nPost := rapid.IntRange(0, 3).Draw(t, "nPost")
 	for i := 0; i < nPost; i++ {
-		s.postOps = append(s.postOps, rapid.SampledFrom([]string{"Reset", "ResetBody", "CloseBodyStream", "SetBody", "ReleaseBody0"}).Draw(t, "post"))
+		s.postOps = append(s.postOps, rapid.SampledFrom([]string{"Reset", "ResetBody", "CloseBodyStream", "SetBody", "ReleaseBody0", "Body", "BodyWriteTo", "SwapBody", "ReplaceStream", "CopyTo"}).Draw(t, "post"))
 	}
 	return s
 }
@@ -563,6 +563,10 @@ type vpC34Res struct {
 	swWriteErr   bool
 	afterClose   int32
 	fired        bool // the stream's own injected fault was reached in this run
+	consumed     []byte
+	consumedBy   string
+	opPanic      string
+	extraCores   []*vpC34Core
 }
 
 type vpC34Msg interface {
@@ -574,6 +578,9 @@ type vpC34Msg interface {
 	ReleaseBody(int)
 	SetBodyStream(io.Reader, int)
 	SetBodyStreamWriter(StreamWriter)
+	Body() []byte
+	BodyWriteTo(io.Writer) error
+	SwapBody([]byte) []byte
 }
 
 func vpC34Run(s *vpC34Scn, budget int) *vpC34Res {
@@ -704,19 +711,58 @@ func vpC34Run(s *vpC34Scn, budget int) *vpC34Res {
 		// the callers (server, client) flush after a successful Write, and only then
 		res.err = bw.Flush()
 	}
+	live := s.noWrite // the first stream is still attached and unread
 	for _, op := range s.postOps {
-		switch op {
-		case "Reset":
-			msg.Reset()
-		case "ResetBody":
-			msg.ResetBody()
-		case "CloseBodyStream":
-			msg.CloseBodyStream() //nolint:errcheck
-		case "SetBody":
-			msg.SetBody([]byte("x"))
-		case "ReleaseBody0":
-			msg.ReleaseBody(0)
-		}
+		func() {
+			defer func() {
+				if r := recover(); r != nil && s.panicAt < 0 {
+					res.opPanic = fmt.Sprintf("%s: %v", op, r)
+				}
+			}()
+			switch op {
+			case "Reset":
+				msg.Reset()
+			case "ResetBody":
+				msg.ResetBody()
+			case "CloseBodyStream":
+				msg.CloseBodyStream() //nolint:errcheck
+			case "SetBody":
+				msg.SetBody([]byte("x"))
+			case "ReleaseBody0":
+				msg.ReleaseBody(0)
+			case "Body":
+				b := append([]byte(nil), msg.Body()...)
+				if live {
+					res.consumed, res.consumedBy = b, op
+				}
+			case "BodyWriteTo":
+				var bb bytes.Buffer
+				err := msg.BodyWriteTo(&bb)
+				if live && err == nil {
+					res.consumed, res.consumedBy = bb.Bytes(), op
+				}
+			case "SwapBody":
+				b := append([]byte(nil), msg.SwapBody(nil)...)
+				if live {
+					res.consumed, res.consumedBy = b, op
+				}
+			case "ReplaceStream":
+				c2 := &vpC34Core{data: []byte("second stream"), panicAt: -1, errAt: -1}
+				res.extraCores = append(res.extraCores, c2)
+				msg.SetBodyStream(&vpC34Plain{c2}, -1)
+			case "CopyTo":
+				if s.resp {
+					var dst Response
+					resp.CopyTo(&dst)
+					dst.Reset()
+				} else {
+					var dst Request
+					req.CopyTo(&dst)
+					dst.Reset()
+				}
+			}
+		}()
+		live = false
 		observe()
 	}
 	if s.pooled {
@@ -781,6 +827,17 @@ func vpC34Check(t *rapid.T, s *vpC34Scn, res *vpC34Res, budget int) {
 		fail("Write panicked although the stream does not: %v", res.panicked)
 	}
 
+	for i, c := range res.extraCores {
+		if n := c.closes.Load(); n != 1 {
+			fail("replacement body stream #%d was closed %d times after the message was reset/released (must be exactly once)", i, n)
+		}
+	}
+	if res.opPanic != "" {
+		fail("%s panicked although the stream does not", res.opPanic)
+	}
+	if res.consumedBy != "" && !res.fired && !bytes.Equal(res.consumed, data) {
+		fail("%s on a message with an unread body stream returned %d bytes, the stream produced %d (first difference at %d)", res.consumedBy, len(res.consumed), len(data), vpC34FirstDiff(res.consumed, data))
+	}
 	if s.noWrite {
 		if len(res.wire) != 0 {
 			fail("harness bug: bytes on the wire of a message that was never written")
@@ -1332,12 +1389,12 @@ func TestVP_C34_ServerConn(t *testing.T) {
 			s.seed = rapid.IntRange(0, 255).Draw(t, "seed")
 			s.plan = vpC34GenPlan(t, s.dataLen)
 			s.eofWithData = rapid.Bool().Draw(t, "eofWithData")
-			switch rapid.IntRange(0, 7).Draw(t, "declShape") {
+			switch rapid.IntRange(0, 9).Draw(t, "declShape") {
 			case 0, 1, 2:
 				s.declKind, s.declared = "chunked", -1
 			case 3, 4, 5:
 				s.declKind, s.declared = "exact", s.dataLen
-			case 6:
+			case 6, 7:
 				s.declKind, s.declared = "short", s.dataLen+rapid.SampledFrom([]int{1, 100, 5000}).Draw(t, "missing")
 			default:
 				s.declKind = "long"
@@ -1373,7 +1430,20 @@ func TestVP_C34_ServerConn(t *testing.T) {
 		}
 		wire, ends, cores, err, pv := vpC34RunServer(ss, -1)
 		key := fmt.Sprint(ss.streams, ss.head)
-		cls := "server/" + ss.streams[0].declKind + "/" + vpC34KindNames[ss.streams[0].kind]
+		lead := ss.streams[0]
+		for _, pref := range []string{"long", "short", "chunked"} {
+			found := false
+			for _, x := range ss.streams {
+				if x.declKind == pref {
+					lead, found = x, true
+					break
+				}
+			}
+			if found {
+				break
+			}
+		}
+		cls := "server/" + lead.declKind + "/" + vpC34KindNames[lead.kind]
 		vpCase(cls+"/nofault", true, key, func() string { return fmt.Sprintf("%d pipelined requests; first stream: %s", n, ss.streams[0]) })
 		vpC34CheckServer(t, ss, -1, wire, cores, err, pv)
 		if len(cores) == 0 {
